@@ -571,6 +571,21 @@ def check_hotspots(prog, rep, m):
     for fn in ('apply', 'focal_stats'):
         g = m.funcs.get(fn)
         ok = g is not None and any(isinstance(x, ast.Assign) and norm(x).replace(' ', '') == 'kernel=custom_kernel(kernel)' for x in g.own_nodes())
+        ck = prog.module('convolution').funcs.get('custom_kernel')
+        if not ok and g is not None and ck is not None:
+            # on wrapper terms: the caller's kernel goes through custom_kernel, and nothing else receives it unvalidated
+            from ..wterm import WT as _WT
+            kp = next((p_ for p_ in g.params if 'kernel' in p_), None)
+            w_ = _WT(prog, depth=4, keep=[ck])
+            try:
+                w_.run(g)
+                raw = ('param', kp)
+                validated = [c_ for c_ in w_.calls if c_.callee is ck and c_.args and c_.args[0] == raw]
+                leaked = [c_ for c_ in w_.calls if c_.callee is not ck and (raw in list(c_.args) or raw in list(c_.kwargs.values()))
+                          and not (isinstance(c_.callee, tuple) and c_.callee[0] == 'global' and c_.callee[1] in ('isinstance', 'len', 'type'))]
+                ok = bool(validated) and not leaked
+            except Exception:      # noqa
+                ok = None
         rep.add('F6', g or m, fn, 'kernel = custom_kernel(kernel)', g.node.lineno if g else 1, ok,
                 'the kernel must be validated (ndarray, odd shape) before use')
 
